@@ -130,7 +130,7 @@ static void mk_list(embedded_pairing_wkdibe_attribute_t* at, embedded_pairing_wk
         if (sel == 1 || sel == 2) { memset(&at[n], 0, sizeof at[n]); at[n].idx = (uint32_t) i; at[n].omitFromKeys = false; uint64_t v = 1000 + i + (variant == 9 ? 0 : (uint64_t) t); memcpy(&at[n].id, &v, 8); n++; }
         else if (sel == 3 && variant != 9) { memset(&at[n], 0, sizeof at[n]); at[n].idx = (uint32_t) i; at[n].omitFromKeys = true; n++; }
     }
-    al.attrs = at; al.length = (size_t) n; al.omitAllFromKeysUnlessPresent = false;
+    al.attrs = at; al.length = (size_t) n; al.omitAllFromKeysUnlessPresent = variant != 9 && (t % 3 == 2);    // the list-level flag varies too
 }
 
 static void wkd_rows(void) {
@@ -161,7 +161,7 @@ static void wkd_rows(void) {
             else if ((t + i) % 3 == 0) { memset(&at[n], 0, sizeof at[n]); at[n].idx = (uint32_t) i; uint64_t v = 55 + t; memcpy(&at[n].id, &v, 8); n++; }
             else if ((t + i) % 3 == 1) { memset(&at[n], 0, sizeof at[n]); at[n].idx = (uint32_t) i; at[n].omitFromKeys = true; n++; }
         }
-        al.attrs = at; al.length = (size_t) n; al.omitAllFromKeysUnlessPresent = false;
+        al.attrs = at; al.length = (size_t) n; al.omitAllFromKeysUnlessPresent = (t % 4 == 1);
     };
     ROW(embedded_pairing_wkdibe_qualifykey, { SKCLR(); child_list(t); RESEED(t); embedded_pairing_wkdibe_qualifykey(&s1, &w.p, &par, &al, rng_cb); RESEED(t);
         wk::qualifykey(*(wk::SecretKey*) &s2, PP, *(wk::SecretKey*) &par, *(wk::AttributeList*) &al, rng_cb); ok = sk_eq(s1, s2); })
@@ -169,7 +169,9 @@ static void wkd_rows(void) {
         wk::nondelegable_qualifykey(*(wk::SecretKey*) &s2, PP, *(wk::SecretKey*) &par, *(wk::AttributeList*) &al); ok = sk_eq(s1, s2); })
     ROW(embedded_pairing_wkdibe_adjust_nondelegable, { SKCLR(); child_list(t); embedded_pairing_wkdibe_nondelegable_qualifykey(&s1, &w.p, &par, &al);
         embedded_pairing_wkdibe_attribute_t atf[L]; memcpy(atf, at, sizeof at); embedded_pairing_wkdibe_attributelist_t alf = al; alf.attrs = atf;
-        memcpy(b2, b1, sizeof b1); s2 = s1; s2.b = b2; child_list(t + 1);
+        memcpy(b2, b1, sizeof b1); s2 = s1; s2.b = b2;
+        // to-list: another list, or (every third trial) the SAME entries in a separate array with only the list-level flag flipped
+        if (t % 3 == 2) { child_list(t); al.omitAllFromKeysUnlessPresent = !alf.omitAllFromKeysUnlessPresent; } else child_list(t + 1);
         embedded_pairing_wkdibe_adjust_nondelegable(&s1, &par, &alf, &al);
         wk::adjust_nondelegable(*(wk::SecretKey*) &s2, *(wk::SecretKey*) &par, *(wk::AttributeList*) &alf, *(wk::AttributeList*) &al); ok = sk_eq(s1, s2); })
     embedded_pairing_wkdibe_precomputed_t pc1, pc2;
